@@ -66,8 +66,10 @@ static void objShiftPtrs(void* obj, ptrdiff_t diff)
 		if ((octet*)obj <= objPtr(obj, i, octet) + diff && 
 			objPtr(obj, i, octet) + diff < objEnd(obj, octet))
 		{
-			objShiftPtrs(objPtr(obj, i, void), diff);
+			// сначала сдвинуть указатель, затем обработать вложенный объект
+			// (на новом месте)
 			objPtr(obj, i, octet) += diff;
+			objShiftPtrs(objPtr(obj, i, void), diff);
 		}
 	// просмотреть оставшиеся указатели
 	for (; i < objPCount(obj); ++i)
